@@ -180,13 +180,22 @@ def _pool_case(spec):
         prot = []
         shared = {}         # identical protein sequences under several transcripts (paralogs / isoforms sharing the CDS)
         dup = rng.random() < 0.35
+        coding_txs = [t for t in ref.all_txs() if t.coding]
+        master = None
+        if dup and len(coding_txs) > 1:
+            # half of the time: the sequence of a complete (M-started) protein is also listed under other transcripts,
+            # before and after it in file order, whatever their cds_start_NF flags
+            cands = [t for t in coding_txs if not t.cds_start_nf]
+            if cands and rng.random() < 0.5:
+                m = rng.choice(cands)
+                master = (ref.protein(m), {t.id for t in coding_txs if t is not m and rng.random() < 0.6})
         with open(f'{wd}/proteome.fasta', 'w') as fh:
             for tx in ref.all_txs():
                 if not tx.coding:
                     continue
                 aa = ref.protein(tx)
-                if dup and shared and rng.random() < 0.6:
-                    aa = rng.choice(sorted(shared.values()))       # same sequence as an earlier entry, own NF flag
+                if (master and tx.id in master[1]) or (dup and not master and shared and rng.random() < 0.6):
+                    aa = master[0] if master else rng.choice(sorted(shared.values()))   # same sequence as another entry, own NF flag
                     if lx and tx.cds_start_nf:
                         aa = 'X' * rng.randint(1, 2) + aa
                     prot.append((aa, tx.cds_start_nf))
